@@ -67,6 +67,13 @@ Theorem C17_old_fields :
 Proof. exact old_fields_kept. Qed.
 Print Assumptions C17_old_fields.
 
+(* The first pass (dry run over the re-read fields) only fills the registry:
+   the file is untouched, whatever was read. *)
+Theorem C17_dry_run_reads_only :
+  forall vr e orig, w_file (dry_run vr e orig) = e.
+Proof. exact dry_run_file. Qed.
+Print Assumptions C17_dry_run_reads_only.
+
 Theorem C17_old_fields_iterated :
   forall vr nc4 reread fuel news e v,
   fx_dimname vr = true -> (forall e', covers vr e' (reread e') = true) -> In v (data_vars e) ->
